@@ -79,6 +79,17 @@ AliasAt(j) ==
       m  == (j - 1) \div (NTryChars - 255)
   IN  CItem("alias_code_points", HexCmd("decode", ChanNo(j), IF m = 0 THEN <<48, 120>> \o u \o <<97>>
                                                              ELSE IF m = 1 THEN <<48>> \o u \o <<97, 98>> ELSE <<48, 120, 97>> \o u \o <<98, 99, 100>>))
+\* HUGE malformed text: more than 2^24 / 2^25 hexadecimal digits with the fault at the very end (a stray character, an odd
+\* count) - nothing may be written before the fault is found, however far away it is
+HugeReps == <<8388613, 16777221>>
+HugeTails == <<<<103>>, <<97>>, <<97, 98, 122, 10>>>>
+NHuge == (IF Thorough THEN 2 ELSE 1) * Len(HugeTails) * 3
+HugeAt(j) ==
+  LET tl == HugeTails[1 + ((j - 1) % 3)]
+      ch == <<"file", "stdin", "fifo">>[1 + (((j - 1) \div 3) % 3)]
+      rp == HugeReps[1 + ((j - 1) \div 9)]
+      c  == Cmd("hex", "decode", NoAcct, <<>>, "", ch, [hex |-> "", rl |-> [pre |-> <<48, 120>>, pat |-> <<97, 98>>, rep |-> rp, tail |-> tl]])
+  IN  CItem("huge_malformed", c)
 O1 == 2 * NEnc
 O2 == O1 + NLayouts
 O3 == O2 + Len(Malformed)
@@ -86,7 +97,8 @@ O4 == O3 + NBigBad
 O5 == O4 + 2 * Len(UniWs)
 O6 == O5 + NMagicItems
 O7 == O6 + NEveryByte
-Count == O7 + NAlias
+O8 == O7 + NAlias
+Count == O8 + NHuge
 ItemAt(g) ==
   IF g <= O1 THEN (IF g % 2 = 1 THEN EncAt((g + 1) \div 2) ELSE DecAt(g \div 2, g))
   ELSE IF g <= O2 THEN LayoutAt(g - O1)
@@ -95,7 +107,8 @@ ItemAt(g) ==
   ELSE IF g <= O5 THEN UniAt(g - O4)
   ELSE IF g <= O6 THEN MagicAt(g - O5)
   ELSE IF g <= O7 THEN EveryByteAt(g - O6)
-  ELSE AliasAt(g - O7)
+  ELSE IF g <= O8 THEN AliasAt(g - O7)
+  ELSE HugeAt(g - O8)
 Histories == 0
 VARIABLE n
 INSTANCE GenBase
